@@ -30,19 +30,23 @@ META = {
                  "operation variants and all partitionings (empty partitions included); replay into dask.bag + TLC validation of "
                  "recorded calls",
     "level_text": "Small-scope: TLC enumerates every sequence over {0,1,2,3} of length <= 4 plus a seeded sample of length 5 "
-                  "(thorough: every sequence of length <= 6) x 109 operation variants (map, starmap, filter, remove, map_partitions, "
+                  "(thorough: every sequence of length <= 6) x 117 operation variants (map, starmap, filter, remove, map_partitions, "
                   "pluck, flatten, distinct, frequencies, topk, fold, reduction, foldby, groupby, join, product, accumulate, take, "
                   "repartition, zip, concat, count/sum/min/max/any/all/mean/var/std, 13 two- and three-stage pipelines) with the result "
                   "the reference demands, and every partitioning into <= 4 partitions; the invariants prove the reference a "
                   "homomorphism of the partitioning. dask.bag is run on every (sequence of length <= 1 [thorough <= 2], partitioning, "
-                  "variant) and on a seeded sample of the rest x split_every in {None,2,3} x groupby(shuffle in {tasks, disk}, "
+                  "variant), on a seeded sample of the rest and on a stratum of two-level reduction trees (npartitions > split_every) for "
+                  "every variant whose per-partition function differs from its combine function, x split_every in {None,2,3} x "
+                  "groupby(shuffle in {tasks, disk}, "
                   "max_branch 2, npartitions) x two bag constructors. Random bags of up to 14 elements in up to 8 partitions are "
                   "recorded and decided by TLC.",
     "level_note": "Trusted: TLC, the TLA+ reference (cross-checked against plain Python on every case; a disagreement is a machinery "
                   "error), the transcription of the user functions F, G, Pred, KeyOf, Binop in the driver, toolz/itertools kernels "
                   "inside one partition. Float results (mean, var, std) are compared with the exact rational within 1e-9. Order is "
                   "demanded only where the API defines the result through it (elementwise operations, accumulate, take, zip, concat, "
-                  "repartition, topk); fold with a non-commutative binop is compared as a multiset. Not decided: to_textfiles/"
+                  "repartition, topk); fold with a non-commutative binop is compared as a multiset; distinct(key=) must keep the FIRST "
+                  "element of every key class (toolz.unique), compared as a multiset; free: which of several equal-key elements "
+                  "topk(key=) keeps, the order of elements inside a groupby group, the order of foldby / frequencies pairs. Not decided: to_textfiles/"
                   "to_avro/to_dataframe, repartition(partition_size=), string accessor, multiprocessing/threaded schedulers.",
 }
 
@@ -50,7 +54,12 @@ SPLIT_OPS = {"frequencies", "topk", "fold", "reduction", "foldby", "count", "sum
 SPLIT_PIPES = {"map.filter.sum", "filter.max", "filter.foldby", "mappart.topk", "filter.freq", "filter.fold0", "filter.count",
                "accumulate.sum"}
 SHUFFLES = [("tasks", None), ("tasks", 2), ("disk", None), ("disk", 1), ("disk", 3)]
-SEQ_KINDS = ("seq", "mset", "grp", "dkey", "fsort", "rep")
+# operation variants whose per-partition function differs from the function that merges partial results (binop != combine,
+# perpartition != aggregate): a tree reduction with >= 2 levels (npartitions > split_every) is the only place where an
+# intermediate level that merges with the wrong one of the two shows - an explicit stratum of the case plan
+DEEP_VARIANTS = {("foldby", "cnt"), ("foldby", "sq"), ("foldby", "add00"), ("fold", "cnt"), ("fold", "sq"), ("fold", "cat"),
+                 ("reduction", "len"), ("reduction", "uniq"), ("frequencies", ""), ("frequencies", "sort"), ("count", ""),
+                 ("topk", "half"), ("pipe", "filter.count"), ("pipe", "filter.freq")}
 
 # ------------------------------------------------------------------ the user functions (BagOps.tla: F, G, Pred, KeyOf, Binop)
 
@@ -77,6 +86,14 @@ def _nc(a, x):
 
 def _inc(acc, x):
     return acc + 1
+
+
+def _addsq(acc, x):
+    return acc + x * x
+
+
+def _half(x):
+    return x // 2
 
 
 def _append(acc, x):
@@ -211,12 +228,21 @@ def py_ref(o, s, layout):
         if op == "flatten":
             return "seq", list(itertools.chain.from_iterable(nest(s)))
         if op == "distinct":
-            if w == "key":
-                return "dkey", list(dict.fromkeys(x % 2 for x in s))
-            return "mset", list(set(s))
+            if w == "":
+                return "mset", list(set(s))
+            # the first element (in sequence order) of every key class - toolz.unique(seq, key)
+            els, key = {"key": (list(s), keyf(2)), "key0": (pairs(s), operator.itemgetter(0)), "keylen": (nest(s), len)}[w]
+            seen, out = set(), []
+            for x in els:
+                if key(x) not in seen:
+                    seen.add(key(x))
+                    out.append(list(x) if isinstance(x, (tuple, list)) else x)
+            return "mset", out
         if op == "frequencies":
             return ("fsort" if w == "sort" else "mset"), [[k, v] for k, v in collections.Counter(s).items()]
         if op == "topk":
+            if w == "half":
+                return "topkkey", sorted((_half(x) for x in s), reverse=True)[:p]
             return "seq", (sorted(s, key=_neg, reverse=True) if w == "neg" else sorted(s, reverse=True))[:p]
         if op == "fold":
             if w == "add":
@@ -225,6 +251,8 @@ def py_ref(o, s, layout):
                 return "int", functools.reduce(operator.add, s, 0)
             if w == "cnt":
                 return "int", functools.reduce(_inc, s, 0)
+            if w == "sq":
+                return "int", functools.reduce(_addsq, s, 0)
             return "mset", list(functools.reduce(_append, s, ()))
         if op == "reduction":
             return {"sum": lambda: ("int", sum(s)), "len": lambda: ("int", len(s)), "uniq": lambda: ("seq", sorted(set(s)))}[w]()
@@ -232,7 +260,7 @@ def py_ref(o, s, layout):
             d = {}
             for x in s:
                 k = _key(x, p)
-                d[k] = (d.get(k, 0) + 1) if w == "cnt" else (d.get(k, 0) + x)
+                d[k] = d.get(k, 0) + (1 if w == "cnt" else x * x if w == "sq" else x)
             return "mset", [[k, v] for k, v in d.items()]
         if op == "groupby":
             d = {}
@@ -306,7 +334,7 @@ def ref_agrees(e, kind, val):
         return v == val and type(v) is type(val)
     if kind in ("rat", "rat2"):
         return Fraction(v[0], v[1]) == val
-    if kind in ("mset", "fsort", "dkey"):
+    if kind in ("mset", "fsort", "topkkey"):
         return _canon(v) == _canon(val)
     if kind == "grp":
         return _canon([[k, sorted(m)] for k, m in v]) == _canon([[k, sorted(m)] for k, m in val])
@@ -373,10 +401,18 @@ def build(o, s, layout, knobs):
     if op == "flatten":
         return same(nest(s)).flatten()
     if op == "distinct":
-        return b.distinct(key=keyf(2)) if w == "key" else b.distinct()
+        if w == "key":
+            return b.distinct(key=keyf(2))
+        if w == "key0":
+            return same(pairs(s)).distinct(key=0)            # a non-callable key: x[0]
+        if w == "keylen":
+            return same(nest(s)).distinct(key=len)
+        return b.distinct()
     if op == "frequencies":
         return b.frequencies(split_every=se, sort=(w == "sort"))
     if op == "topk":
+        if w == "half":
+            return b.topk(p, key=_half, split_every=se)
         return b.topk(p, key=_neg, split_every=se) if w == "neg" else b.topk(p, split_every=se)
     if op == "fold":
         if w == "add":
@@ -385,6 +421,8 @@ def build(o, s, layout, knobs):
             return b.fold(operator.add, initial=0, split_every=se)
         if w == "cnt":
             return b.fold(_inc, operator.add, initial=0, split_every=se)
+        if w == "sq":
+            return b.fold(_addsq, operator.add, initial=0, split_every=se)
         return b.fold(_append, _concat, initial=(), split_every=se)
     if op == "reduction":
         if w == "sum":
@@ -400,7 +438,7 @@ def build(o, s, layout, knobs):
             return b.foldby(k, operator.add, 0, split_every=se)
         if w == "add00":
             return b.foldby(k, operator.add, 0, operator.add, 0, split_every=se)
-        return b.foldby(k, _inc, 0, operator.add, split_every=se)
+        return b.foldby(k, _addsq if w == "sq" else _inc, 0, operator.add, split_every=se)
     if op == "groupby":
         return b.groupby(keyf(p), **gkw)
     if op == "join":
@@ -487,13 +525,15 @@ def shape_ok(o, kind, v):
         return isinstance(v, list) and len(v) == 2 and _ints(v, 1) and v[1] > 0
     if kind == "grp":
         return isinstance(v, list) and all(isinstance(g, list) and len(g) == 2 and type(g[0]) is int and _ints(g[1], 1) for g in v)
-    if kind == "dkey":
+    if kind == "topkkey":
         return _ints(v, 1)
+    if op == "distinct" and o["w"] == "keylen":
+        return _ints(v, 2)
     if kind == "fsort":
         return _ints(v, 2) and all(len(x) == 2 for x in v)
     if kind == "rep":
         return _ints(v, 1)
-    pairwise = op in ("zip", "join", "product", "frequencies", "foldby") or (op == "pipe" and o["w"] in (
+    pairwise = op in ("zip", "join", "product", "frequencies", "foldby") or (op == "distinct" and o["w"] == "key0") or (op == "pipe" and o["w"] in (
         "filter.groupby.len", "filter.foldby", "filter.freq"))
     if pairwise:
         return _ints(v, 2) and all(len(x) == 2 for x in v)
@@ -563,8 +603,8 @@ def judge(e, obs, s):
         ok = _canon(v) == _canon(w)
     elif kind == "grp":
         ok = _canon([[k, sorted(m)] for k, m in v]) == _canon([[k, sorted(m)] for k, m in w])
-    elif kind == "dkey":
-        ok = sorted(x % 2 for x in v) == sorted(w) and all(x in s for x in v)
+    elif kind == "topkkey":
+        ok = [_half(x) for x in v] == w and all(v.count(x) <= s.count(x) for x in v)
     elif kind == "fsort":
         ok = _canon(v) == _canon(w) and all(v[i][1] >= v[i + 1][1] for i in range(len(v) - 1))
     elif kind == "rep":
@@ -698,10 +738,29 @@ def export_cases(ctx, maxlen, extra, design_parts, label):
     return layouts, byvar
 
 
-def plan(rng, layouts, byvar, exhaustive_len, per_variant):
-    """(o, s, layout, knobs, e) items: everything up to exhaustive_len, a seeded sample above"""
+def deep_layouts(layouts, n):
+    """(layout, split_every) with at least two levels in the reduction tree (npartitions > split_every), as few empty
+    partitions as the length allows"""
+    out = []
+    for lay in layouts[n]:
+        for se in (2, 3):
+            if len(lay) > se and sum(1 for x in lay if x) >= min(n, se + 1):
+                out.append((lay, se))
+    return out
+
+
+def plan(rng, layouts, byvar, exhaustive_len, per_variant, per_deep=0):
+    """(o, s, layout, knobs, e) items: everything up to exhaustive_len, a seeded sample above, and for the variants
+    with binop != combine a stratum of deep reduction trees over the longest sequences"""
     items = []
     for var in sorted(byvar):
+        if (var[0], var[1]) in DEEP_VARIANTS and per_deep:
+            longest = max(len(x[0]) for x in byvar[var])
+            long_ = [x for x in byvar[var] if len(x[0]) >= max(3, longest - 1)]
+            for _ in range(per_deep if long_ else 0):
+                s, o, e = rng.choice(long_)
+                lay, se = rng.choice(deep_layouts(layouts, len(s)))
+                items.append((o, s, lay, {"se": se, "shuffle": SHUFFLES[0], "bs": 64, "ctor": rng.choice(["graph", "delayed"])}, e))
         big = []
         for s, o, e in byvar[var]:
             if len(s) <= exhaustive_len:
@@ -727,10 +786,10 @@ def random_records(rng, n):
     menu += [(op, "", p, 0) for op in ("filter", "remove") for p in (1, 2, 5, 10)]
     menu += [("mappart", w, 0, 0) for w in ("f", "bag", "item")] + [("pluck", "pair", 0, 0), ("pluck", "pair", 1, 0),
                                                                      ("pluck", "default", 1, 0)]
-    menu += [("distinct", w, 0, 0) for w in ("", "key")] + [("frequencies", w, 0, 0) for w in ("", "sort")]
-    menu += [("topk", w, p, 0) for w in ("", "neg") for p in (1, 3, 5)]
-    menu += [("fold", w, 0, 0) for w in ("add", "add0", "cnt", "cat")] + [("reduction", w, 0, 0) for w in ("sum", "len", "uniq")]
-    menu += [("foldby", w, p, 0) for w in ("add", "add0", "add00", "cnt") for p in (2, 3, 0)]
+    menu += [("distinct", w, 0, 0) for w in ("", "key", "key0", "keylen", "key", "key0")] + [("frequencies", w, 0, 0) for w in ("", "sort")]
+    menu += [("topk", w, p, 0) for w in ("", "neg", "half") for p in (1, 3, 5)]
+    menu += [("fold", w, 0, 0) for w in ("add", "add0", "cnt", "sq", "cat")] + [("reduction", w, 0, 0) for w in ("sum", "len", "uniq")]
+    menu += [("foldby", w, p, 0) for w in ("add", "add0", "add00", "cnt", "sq", "cnt", "sq") for p in (2, 3, 0)]
     menu += [("groupby", "", p, 0) for p in (0, 2, 3, 0, 2, 3)]
     menu += [("join", w, p, 0) for w in ("list", "bag", "delayed") for p in (0, 2)]
     menu += [("accumulate", w, 1, q) for w in ("add", "nc") for q in (0, 1)]
@@ -811,10 +870,10 @@ def run(ctx):
     if ctx.quick:
         extra = sorted({tuple(rng.randint(0, 3) for _ in range(5)) for _ in range(110)})
         layouts, byvar = export_cases(ctx, 4, extra, 2, "design+cases")
-        items = plan(rng, layouts, byvar, 1, 50)
+        items = plan(rng, layouts, byvar, 1, 45, per_deep=60)
     else:
         layouts, byvar = export_cases(ctx, 6, [], 3, "design+cases")
-        items = plan(rng, layouts, byvar, 2, 1200)
+        items = plan(rng, layouts, byvar, 2, 1200, per_deep=1500)
     ncases = sum(len(v) for v in byvar.values())
     t1 = time.time()
     check_items(ctx, items, ctx.violation)
@@ -863,6 +922,29 @@ def replay(ctx, obj):
 
 # ------------------------------------------------------------------ binding self-test
 
+class method_mutant:
+    """like mutate.source_mutant, for a method of a class: the method is recompiled from its source with one
+    textual edit (in a copy of the module namespace) and installed on the class inside this process only"""
+    def __init__(self, module, cls, name, old, new):
+        import inspect
+        import textwrap
+        self.cls, self.name, self.orig = cls, name, cls.__dict__[name]
+        src = textwrap.dedent(inspect.getsource(self.orig))
+        if src.count(old) < 1:
+            raise MachineryError("mutant anchor %r not found in %s.%s" % (old, cls.__name__, name))
+        ns = dict(module.__dict__)
+        exec(compile(src.replace(old, new, 1), "<mutant %s.%s>" % (cls.__name__, name), "exec"), ns)
+        self.mutated = ns[name]
+
+    def __enter__(self):
+        setattr(self.cls, self.name, self.mutated)
+        return self.mutated
+
+    def __exit__(self, *exc):
+        setattr(self.cls, self.name, self.orig)
+        return False
+
+
 def selftest(ctx):
     global _SCRATCH
     _SCRATCH = ctx.scratch
@@ -874,22 +956,20 @@ def selftest(ctx):
     r0 = random.Random(7)
     layouts, byvar = export_cases(ctx, 2, sorted({tuple(r0.randint(0, 3) for _ in range(3)) for _ in range(24)}), 2, "selftest-cases")
 
-    def subset(ops, n):
+    def subset(ops, n, deep=0):
         r = random.Random(3)
         sel = {k: v for k, v in byvar.items() if k[0] in ops or (k[0] == "pipe" and any(x in k[1] for x in ops))}
-        items = plan(r, layouts, sel, 1, n)
-        # deep trees need more partitions than 4 for some mutants: add 3-4 part layouts explicitly
-        return items
+        return plan(r, layouts, sel, 1, n, per_deep=deep)
 
     found = []
 
     def report(sig, what, rep):
         found.append(sig)
 
-    def trial(name, cm, ops, expect=True, n=25):
+    def trial(name, cm, ops, expect=True, n=25, deep=0):
         nonlocal ok
         del found[:]
-        items = subset(ops, n)
+        items = subset(ops, n, deep)
         with cm:
             check_items(ctx, items, report, parallel=False)
         new = [f for f in found if f not in ctx.known]          # the known findings do not count as detection
@@ -903,7 +983,7 @@ def selftest(ctx):
     base = contextlib.nullcontext()
     # the unchanged tree must only show the known findings on these subsets
     del found[:]
-    items = subset({"groupby", "frequencies", "sum", "accumulate", "repartition", "fold"}, 10)
+    items = subset({"groupby", "frequencies", "sum", "accumulate", "repartition", "fold", "distinct", "topk"}, 8, deep=10)
     check_items(ctx, items, report, parallel=False)
     unknown = sorted(set(f for f in found if f not in ctx.known))
     print("unchanged tree on the self-test subset: %d cases, violations outside known findings: %s" % (len(items), unknown))
@@ -919,6 +999,21 @@ def selftest(ctx):
         BC, "accumulate_part", "return res[1:], res[-1]", "return res[1:], res[0]"), {"accumulate"})
     trial("split: last piece starts one element late", source_mutant(
         BC, "split", "L.append(seq[int(part * (n - 1)) :])", "L.append(seq[int(part * (n - 1)) + 1 :])"), {"repartition"})
+    trial("merge_distinct: keyed merge keeps the LAST element per key", source_mutant(
+        BC, "merge_distinct", "return chunk_distinct(toolz.concat(seqs), key=key)",
+        "if key is None:\n        return chunk_distinct(toolz.concat(seqs))\n    if not callable(key):\n"
+        "        key = partial(chunk.getitem, key=key)\n    return list({key(item): item for item in toolz.concat(seqs)}.values())"),
+        {"distinct"})
+    trial("chunk_distinct: keeps the last element per key inside a partition", source_mutant(
+        BC, "chunk_distinct", "return list(unique(seq, key=key))", "return list(unique(list(seq)[::-1], key=key))[::-1]"), {"distinct"})
+    trial("Bag.foldby: intermediate tree levels merge with binop, not combine", method_mutant(
+        BC, BC.Bag, "foldby", "(partial, reduce, combine),", "(partial, reduce, binop),"), {"foldby"}, n=10, deep=80)
+    trial("Bag.reduction: intermediate tree levels apply perpartition, not aggregate", method_mutant(
+        BC, BC.Bag, "reduction", "aggregate,\n" + " " * 16 + "[(b, j) for j in inds],", "perpartition,\n" + " " * 16 + "[(b, j) for j in inds],"),
+        {"fold", "reduction", "frequencies", "count"}, n=10, deep=40)
+    trial("benign: topk(key=) prefers the later of two equal-key elements", method_mutant(
+        BC, BC.Bag, "topk", "func = partial(topk, k, key=key)", "func = compose(partial(topk, k, key=key), list, reversed, list)"),
+        {"topk"}, expect=False, n=25, deep=30)
     trial("benign: repartition puts the remainder first", source_mutant(
         BC, "repartition_npartitions", "nsplits[-1] += mod", "nsplits[0] += mod"), {"repartition"}, expect=False)
     # (ii) corrupted / truncated recorded fields must be rejected by the trace specification
